@@ -15,7 +15,7 @@ use swiftness_commitment::vector;
 mod fri_scen;
 #[path = "scen_core_misc.rs"]
 mod misc_scen;
-pub use fri_scen::{c06, c07};
+pub use fri_scen::{c06, c06_big, c07, c07_big};
 pub use misc_scen::{c08, c09, selftest_models};
 
 pub fn hexf(f: &Felt) -> String {
